@@ -93,7 +93,12 @@ class Gen:
         self.lines.append(name)
 
     def parent(self):
-        self.lines.append('parent up=%d' % self.r.randint(0, 1))
+        up = self.r.randint(0, 1)
+        self.lines.append('parent up=%d' % up)
+        if up and self.active:
+            # a recovering parent reschedules actively checked problem children to now + Random() % 60
+            # (checkable-check.cpp:405-416); pin next_check so that implementation and model agree on it
+            self.nextcheck()
 
     def pause(self):
         self.lines.append('pause p=%d' % self.r.randint(0, 1))
